@@ -3,7 +3,7 @@
    spec: the independent JSON reader of Proofs/Json.v (unescape, lex, parse_line). *)
 From Coq Require Import List NArith Bool.
 Import ListNotations.
-From L4 Require Import Model.Json Proofs.Json.
+From L4 Require Import Model.Json Proofs.Json Proofs.JsonStream.
 Local Open Scope N_scope.
 
 (* Escaping is inverted exactly by a general JSON string reader, for every byte string. *)
@@ -51,6 +51,37 @@ Print Assumptions C12_one_line.
 Theorem C12_one_newline : forall r : record, count_occ N.eq_dec (encode_record r) 10 = 1%nat.
 Proof. exact one_newline. Qed.
 Print Assumptions C12_one_newline.
+
+(* Over a HISTORY: the sink after any list of records, cut at newlines by a line reader, is
+   exactly one line per record, in order, with nothing left over, and each line parses to
+   that record's fields - no field content forges, merges or splits a line. *)
+Theorem C12_stream_roundtrip :
+  forall rs : list record,
+    split_lines (stream rs) = (map message_object rs, [])
+    /\ read_stream (stream rs) = Some (map fields_of rs).
+Proof. exact (fun rs => conj (stream_lines rs) (stream_roundtrip rs)). Qed.
+Print Assumptions C12_stream_roundtrip.
+
+(* Every byte prefix of the sink (crash, torn write, full disk): the complete lines are the
+   lines of the first k records, and the tail is a proper prefix of record k's line (or empty
+   when nothing follows); every complete line parses to its record. *)
+Theorem C12_stream_prefix :
+  forall (rs : list record) (n : nat),
+  exists k,
+    (k <= length rs)%nat /\
+    fst (split_lines (firstn n (stream rs))) = map message_object (firstn k rs) /\
+    match nth_error rs k with
+    | Some r => proper_prefix (snd (split_lines (firstn n (stream rs)))) (encode_record r)
+    | None => snd (split_lines (firstn n (stream rs))) = []
+    end.
+Proof. exact stream_prefix. Qed.
+Print Assumptions C12_stream_prefix.
+
+Theorem C12_prefix_lines_parse :
+  forall (rs : list record) (n : nat),
+  exists k, parse_all (fst (split_lines (firstn n (stream rs)))) = Some (map fields_of (firstn k rs)).
+Proof. exact prefix_lines_parse. Qed.
+Print Assumptions C12_prefix_lines_parse.
 
 (* Non-vacuity: a record whose message is  a QUOTE b BACKSLASH c LF 0x01 DEL  with a quote
    in an MDC key, absent module/file, line 7, unnamed thread. *)
